@@ -2860,6 +2860,35 @@ package gomatrixserverlib
 //@   loop 1: invariant forall j int :: 0 <= j && j < idx(1) ==> (block[j] != nil && fresh(block[j]) && block[j].event == events[j] && block[j].originServerTS == int64(events[j].OriginServerTS()) && block[j].eventID == events[j].EventID())
 //@   loop 1: step carries-the-position-and-steps-computed-for-it: block[old(idx(1))].mainlinePosition == ret(getFirstPowerLevelMainlineEvent, 1) && block[old(idx(1))].mainlineSteps == ret(getFirstPowerLevelMainlineEvent, 2)
 
+// mainline ordering: exactly the wrapped events are sorted, with the mainline comparator, and the result lists the
+// events of the sorted wrappers in that order
+//@ func (*stateResolverV2).mainlineOrdering
+//@   property C10, C11
+//@   nosafety
+//@   requires r != nil
+//@   ensures one-result-per-event: len(result) == len(events)
+//@   calls wrapOtherEventsForSort@root all-events: events == root_events
+//@   calls SortStableFunc@root the-wrapped-events-by-the-mainline-comparator: x == ret(wrapOtherEventsForSort) && cmp == sortStateResV2ConflictedOtherHeap
+//@   loop 1: invariant 0 <= idx(1) && idx(1) <= len(block) && len(result) == idx(1) && len(block) == len(events)
+//@   loop 1: step in-sorted-order: len(result) == old(len(result)) + 1 && result[old(len(result))] == block[old(idx(1))].event
+
+// reverse topological ordering: exactly the wrapped events go to Kahn's algorithm of the requested kind (auth events:
+// power-level wrappers; prev events: mainline wrappers) and the result lists the events of what it returned, in order
+//@ func (*stateResolverV2).reverseTopologicalOrdering
+//@   property C10, C11
+//@   nosafety
+//@   requires r != nil
+//@   ensures auth-order-uses-the-auth-event-graph: order == 2 ==> (called(kahnsAlgorithmUsingAuthEvents) && !called(kahnsAlgorithmUsingPrevEvents))
+//@   ensures prev-order-uses-the-prev-event-graph: order == 1 ==> (called(kahnsAlgorithmUsingPrevEvents) && !called(kahnsAlgorithmUsingAuthEvents))
+//@   calls wrapPowerLevelEventsForSort@root all-events: events == root_events
+//@   calls wrapOtherEventsForSort@root all-events: events == root_events
+//@   calls kahnsAlgorithmUsingAuthEvents@root the-wrapped-events: events == ret(wrapPowerLevelEventsForSort)
+//@   calls kahnsAlgorithmUsingPrevEvents@root the-wrapped-events: events == ret(wrapOtherEventsForSort)
+//@   loop 1: invariant 0 <= idx(1) && len(result) == idx(1)
+//@   loop 1: step in-returned-order: len(result) == old(len(result)) + 1 && result[old(len(result))] == ret(kahnsAlgorithmUsingAuthEvents)[old(idx(1))].event
+//@   loop 2: invariant 0 <= idx(2) && len(result) == idx(2)
+//@   loop 2: step in-returned-order: len(result) == old(len(result)) + 1 && result[old(len(result))] == ret(kahnsAlgorithmUsingPrevEvents)[old(idx(2))].event
+
 // Layering events on the partial state: every state event goes to the slot of its own (type, state key) - the three
 // singleton slots are only for create / power levels / join rules WITH THE EMPTY state key, members and third-party
 // invites are keyed by their state key, everything else by (type, state key); an event never lands in another key's slot
